@@ -6,14 +6,42 @@ from .. import valuegen as vg
 U32 = unicodedata.ucd_3_2_0
 
 
+_CAT10 = []
+
+
+def category_unicode10(o):
+    """General_Category in Unicode 10, the version of the table the library's printable test consults (pyv/data, copied from
+    the unic-ucd-category crate's data file: data, not code under test)"""
+    import bisect
+    if not _CAT10:
+        import os
+        starts, rows = [], []
+        for line in open(os.path.join(os.path.dirname(os.path.dirname(os.path.abspath(__file__))), 'data', 'general_category_unicode10.txt')):
+            if line.startswith('#') or not line.strip():
+                continue
+            r, cat = line.split()
+            a, b = r.split('..')
+            starts.append(int(a, 16))
+            rows.append((int(a, 16), int(b, 16), cat))
+        _CAT10.extend([starts, rows])
+    i = bisect.bisect_right(_CAT10[0], o) - 1
+    if i >= 0 and _CAT10[1][i][0] <= o <= _CAT10[1][i][1]:
+        return _CAT10[1][i][2]
+    return 'Cn'
+
+
 def stable_char(ch):
-    """printable status independent of the Unicode version: ASCII, Latin-1, or assigned in Unicode 3.2
-    with the same general category today"""
+    """printable status independent of the Unicode version: ASCII, Latin-1, or the same general category in the two Unicode
+    versions involved (the library's tables: 10.0, this interpreter's: 14.0) - among them every character assigned in
+    Unicode 3.2 that kept its category"""
     o = ord(ch)
     if o < 0x100:
         return True
+    if 0xD800 <= o <= 0xDFFF:
+        return False
+    now = unicodedata.category(ch)
     c32 = U32.category(ch)
-    return c32 != 'Cn' and c32 == unicodedata.category(ch) and not (0xD800 <= o <= 0xDFFF)
+    return (c32 != 'Cn' and c32 == now) or (now != 'Cn' and category_unicode10(o) == now)
 
 
 def expected_quote(s_has_single, s_has_double, preferred="'"):
@@ -76,6 +104,20 @@ class C16(Property):
                 else:
                     bs.append(cs.byte())
             return {'k': 'bytes', 'b': bytes(bs).hex(), 'mode': cs.pick(['repr', 'repr', 'repr', 'pref_double', 'forced_single', 'forced_double', 'named:bytearray', 'named:x'])}
+        if cs.bool(60):
+            # characters drawn range by range from the category table (every run of equal category has the same weight, so a
+            # small block of an unusual category is met as often as a large one), mixed with quotes and plain text
+            category_unicode10(0)
+            rows = _CAT10[1]
+            out = []
+            for _ in range(1 + cs.choice(8)):
+                if cs.bool(60):
+                    out.append(cs.pick(["'", '"', 'a', ' ', '\\']))
+                else:
+                    a, b, _cat = rows[cs.choice(len(rows))]
+                    o = a + cs.choice(b - a + 1)
+                    out.append(chr(o) if not 0xD800 <= o <= 0xDFFF else 'x')
+            return {'k': 'str', 's': ''.join(out), 'mode': cs.pick(['repr', 'repr', 'repr', 'pref_double', 'forced_single', 'forced_double'])}
         nclasses = 1 + cs.choice(4)
         classes = [cs.pick(CLASSES) for _ in range(nclasses)]
         s = vg.gen_text(cs, 14, classes)
